@@ -326,6 +326,9 @@ def explore_correct(case):
                         res.fail(site="mrp.correct_accel", clause="magnitude_gate", cls=tag.rstrip("0123456789.e-"),
                                  detail=dict(x=x, W=wname, y=y, code=code, norm=float(np.linalg.norm(y))), sub="correct", case=case)
                     judge_correction(res, "mrp.correct_accel", x, W, x1, W1, code, dict(W=wname, y=y, tag=tag), case, "correct")
+                    if code == 0 and not all(np.all(np.isfinite(arr(v))) for v in o):
+                        res.fail(site="mrp.correct_accel", clause="accepted_correction_finite", cls="secondary_outputs", detail=dict(x=x, W=wname, y=y, nonfinite=[i for i, v in enumerate(o) if not np.all(np.isfinite(arr(v)))]),
+                                 sub="correct", case=case)
                     if wname == "small":
                         flat = [list(x), [W[rr, c] for c in range(6) for rr in range(c, 6)], list(y), [G0], [0.0] * 3, [STD_ACC], [STD_ACC_OM], [BETA_ACC]]
                         sa.add(sxvm.run(pa, flat, sxvm.FLOAT)[1])
@@ -346,6 +349,9 @@ def explore_correct(case):
                         res.fail(site="mrp.correct_mag", clause="error_code_finite", cls=tag.rstrip("0123456789.e-"), detail=dict(x=x, W=wname, y=y), sub="correct", case=case)
                         continue
                     judge_correction(res, "mrp.correct_mag", x, W, x1, W1, code, dict(W=wname, y=y, tag=tag), case, "correct")
+                    if code == 0 and not all(np.all(np.isfinite(arr(v))) for v in o):
+                        res.fail(site="mrp.correct_mag", clause="accepted_correction_finite", cls="secondary_outputs", detail=dict(x=x, W=wname, y=y, nonfinite=[i for i, v in enumerate(o) if not np.all(np.isfinite(arr(v)))]),
+                                 sub="correct", case=case)
                     if wname == "small":
                         flat = [list(x), [W[rr, c] for c in range(6) for rr in range(c, 6)], list(y), [0.0], [STD_MAG], [BETA_MAG]]
                         sm.add(sxvm.run(pm, flat, sxvm.FLOAT)[1])
